@@ -1830,6 +1830,46 @@ func ruleC10ErrorsNotDropped(c *Ctx) {
 				}
 			}
 		})
+		// best-effort clean-up on a path that already reports an error: the discarding statement is directly followed by
+		// `return ..., err` inside the branch that established `err != nil`
+		onErrorPath := map[*ast.CallExpr]bool{}
+		ast.Inspect(f.Body(), func(nd ast.Node) bool {
+			if _, isLit := nd.(*ast.FuncLit); isLit {
+				return false
+			}
+			var list []ast.Stmt
+			switch x := nd.(type) {
+			case *ast.BlockStmt:
+				list = x.List
+			case *ast.CaseClause:
+				list = x.Body
+			}
+			for i := 0; i+1 < len(list); i++ {
+				var call *ast.CallExpr
+				switch s := list[i].(type) {
+				case *ast.ExprStmt:
+					call, _ = ast.Unparen(s.X).(*ast.CallExpr)
+				case *ast.AssignStmt:
+					if len(s.Rhs) == 1 {
+						call, _ = ast.Unparen(s.Rhs[0]).(*ast.CallExpr)
+					}
+				}
+				ret, ok := list[i+1].(*ast.ReturnStmt)
+				if call == nil || !ok || len(ret.Results) == 0 {
+					continue
+				}
+				eo := objOfIdent(info, ret.Results[len(ret.Results)-1])
+				if eo == nil || !types.Identical(eo.Type(), errT) {
+					continue
+				}
+				for _, cl := range enclosingConds(f.Body(), list[i]) {
+					if be, ok := ast.Unparen(cl.e).(*ast.BinaryExpr); ok && be.Op == token.NEQ && cl.pos && objOfIdent(info, be.X) == eo && isNilIdent(info, be.Y) {
+						onErrorPath[call] = true
+					}
+				}
+			}
+			return true
+		})
 		k := 0
 		for _, cs := range f.calls {
 			tv, ok := info.Types[cs.Call]
@@ -1871,6 +1911,10 @@ func ruleC10ErrorsNotDropped(c *Ctx) {
 			}
 			if cs.Go {
 				continue // the goroutine body is analysed on its own
+			}
+			if onErrorPath[cs.Call] {
+				c.ok(rule, f, construct, cs.Call.Pos(), false, "exempt (%s): best-effort clean-up on a path that returns the error already established", how)
+				continue
 			}
 			c.bad(rule, f, construct, cs.Call.Pos(), "the error of %s is dropped (%s): a failure at this point is invisible to the caller, which then reports success or continues on a half-done operation", exprString(cs.Call.Fun), how)
 		}
